@@ -306,6 +306,30 @@ func dFaithful(t *testing.T, out *vOut, r *vRand, all []dEntryPts) {
 			}
 			var yv any
 			var cs string
+			// an omitempty field whose default is not zero, written with the zero value: the
+			// omitempty-zero ambiguity of the round trip (Coq: encode_decode_refuted)
+			zeroIt := l.n.omit && !l.n.zero && r.Intn(2) == 0
+			if l.n.omit && !l.n.zero {
+				out.Stat("faithful.omitempty-nonzero-default", 1)
+			}
+			if zeroIt {
+				switch l.n.kind {
+				case "bool":
+					yv, cs = false, "false"
+				case "int", "uint":
+					yv, cs = 0, "0"
+				case "float":
+					yv, cs = 0.0, "0"
+				case "duration":
+					yv, cs = "0s", "0"
+				case "string":
+					yv, cs = "", ""
+				}
+				fSet(doc, l.path, yv)
+				fSet(canon, l.path, cs)
+				written = append(written, wr{l.path, cs, fmt.Sprint(yv), l.n})
+				continue
+			}
 			switch l.n.kind {
 			case "bool":
 				b := r.Bool()
@@ -428,8 +452,16 @@ func dFaithful(t *testing.T, out *vOut, r *vRand, all []dEntryPts) {
 			es := fmt.Sprint(ev)
 			switch {
 			case !ok:
-				// omitempty fields with a zero value are legitimately absent
-				if !(w.canon == "false" || w.canon == "0" || w.canon == "") {
+				// an omitempty field with a zero value is left out by the encoder; harmless when the
+				// default is that zero too, a misleading absence otherwise
+				if w.canon == "false" || w.canon == "0" || w.canon == "" {
+					if dn := def.get(w.path); w.n.omit && dn != nil && dn.val != w.canon {
+						out.Oracle("effective-config-omits-written-zero", term+"(VRec []))", fmt.Sprintf("%s written with the zero value %s on an omitempty field (default %s) is absent from the effective configuration", strings.Join(w.path, "::"), w.canon, dn.val))
+						out.Stat("faithful.omitempty-hides-zero", 1)
+					} else if !w.n.omit {
+						out.Oracle("effective-config-missing", term+"(VRec []))", strings.Join(w.path, "::")+" (no omitempty) absent from the effective configuration")
+					}
+				} else {
 					out.Oracle("effective-config-missing", term+"(VRec []))", strings.Join(w.path, "::")+" absent from the effective configuration")
 				}
 			case w.n.opaque:
@@ -588,8 +620,19 @@ func dFaithful(t *testing.T, out *vOut, r *vRand, all []dEntryPts) {
 						}
 					}
 				}
-				out.Case(true, rterm+"("+obs2.coq()+"))")
-				out.Stat("round.cases", 1)
+				// Part 7 has no nil pointers: a section that is nil in the typed configuration but not in
+				// the defaults (an OTLP receiver protocol that was not written) is encoded as `key: null`
+				// and comes back with its defaults when the effective configuration is loaded again —
+				// outside the model (compat excludes it), counted here
+				if fShape(def) != fShape(obs) {
+					out.Stat("round.skipped-nil-section", 1)
+					if fShape(obs2) != fShape(obs) {
+						out.Stat("round.nil-section-resurrected", 1)
+					}
+				} else {
+					out.Case(true, rterm+"("+obs2.coq()+"))")
+					out.Stat("round.cases", 1)
+				}
 			}
 		}
 		// every nested validation rule of the loaded configuration is evaluated
@@ -712,4 +755,18 @@ func eScalar(x any, ok bool, canon string) string {
 		return "CScalar " + vStr(y)
 	}
 	return "CScalar " + vStr(fmt.Sprint(x))
+}
+
+// fShape lists the struct nodes of a typed tree
+func fShape(n *fNode) string {
+	if n == nil || n.leaf {
+		return ""
+	}
+	var b strings.Builder
+	for _, k := range n.keys {
+		if !n.kids[k].leaf {
+			b.WriteString(k + "{" + fShape(n.kids[k]) + "}")
+		}
+	}
+	return b.String()
 }
